@@ -710,6 +710,42 @@ impl Known {
 // ---------------------------------------------------------------------------------------------
 // parallel case runner
 
+/// With the library's `tracing` feature on (harness feature `lib-features`): a subscriber that enables every level
+/// and throws everything away after formatting it. Every second worker thread installs it, so that the arguments of
+/// the library's tracing macros are evaluated and its spans entered there, while on the other threads the same call
+/// sites are compiled in but disabled (a statement that only runs as a macro argument does not run there).
+#[cfg(feature = "lib-features")]
+pub mod trace_sink {
+    use tracing::{span, Event, Metadata, Subscriber};
+    pub struct Sink(pub std::sync::atomic::AtomicU64);
+    impl Subscriber for Sink {
+        fn enabled(&self, _: &Metadata<'_>) -> bool {
+            true
+        }
+        fn new_span(&self, _: &span::Attributes<'_>) -> span::Id {
+            span::Id::from_u64(1 + self.0.fetch_add(1, std::sync::atomic::Ordering::Relaxed))
+        }
+        fn record(&self, _: &span::Id, _: &span::Record<'_>) {}
+        fn record_follows_from(&self, _: &span::Id, _: &span::Id) {}
+        fn event(&self, ev: &Event<'_>) {
+            struct V(u64);
+            impl tracing::field::Visit for V {
+                fn record_debug(&mut self, _: &tracing::field::Field, v: &dyn std::fmt::Debug) {
+                    self.0 += format!("{v:?}").len() as u64;
+                }
+            }
+            let mut v = V(0);
+            ev.record(&mut v);
+            self.0.fetch_add(v.0 & 1, std::sync::atomic::Ordering::Relaxed);
+        }
+        fn enter(&self, _: &span::Id) {}
+        fn exit(&self, _: &span::Id) {}
+    }
+    pub fn install_on_this_thread() -> tracing::subscriber::DefaultGuard {
+        tracing::subscriber::set_default(Sink(std::sync::atomic::AtomicU64::new(0)))
+    }
+}
+
 /// Run `n` cases on `threads` worker threads; `f(case_index, &mut Outcome)`.
 pub fn par_cases<F>(n: u64, threads: usize, stop_after_violations: usize, f: F) -> Outcome
 where
@@ -721,8 +757,12 @@ where
     let chunk = (n / (threads as u64 * 64)).clamp(1, 4096);
     std::thread::scope(|s| {
         let hs: Vec<_> = (0..threads.max(1))
-            .map(|_| {
-                s.spawn(|| {
+            .map(|worker| {
+                let (next, stop, f) = (&next, &stop, &f);
+                s.spawn(move || {
+                    #[cfg(feature = "lib-features")]
+                    let _sink = (worker % 2 == 1).then(trace_sink::install_on_this_thread);
+                    let _ = worker;
                     let mut out = Outcome::default();
                     loop {
                         let start = next.fetch_add(chunk, AO::Relaxed);
